@@ -6,6 +6,7 @@ import L21.Model.Aff
 import L21.Driver.GdsIO
 import L21.Driver.LefRawIO
 import L21.Driver.RawProtoIO
+import L21.Driver.RawLefIO
 import L21.Driver.RawGdsIO
 import L21.Driver.PlaceIO
 import L21.Driver.LefIO
@@ -178,7 +179,7 @@ def dispatch (op : String) (args : List Sexp) : String :=
   | "tf.gchain" => "unsupported"
   | "raw.gflatten" => "unsupported"
   | "c20.abs2gds" => "unsupported"
-  | "c20.abs2lef" => "unsupported"
+  | "c20.abs2lef" => opAbs2Lef args
   | "c20.lefrt" => "unsupported"
   | "c20.dup" => "unsupported"
   | "c20.purphist" => "unsupported"
